@@ -9,7 +9,6 @@ import (
 	"fmt"
 	"math/rand"
 	"os"
-	"os/exec"
 	"path/filepath"
 	"regexp"
 	"sort"
@@ -130,12 +129,12 @@ func (w *worker) start() {
 	if w.dev {
 		o.Args = []string{"--dev"}
 	}
-	if _, err := exec.LookPath("prlimit"); err == nil {
-		o.Wrapper = []string{"prlimit", "--as=6442450944"}
-	}
 	s, err := srv.Start(o)
 	if err != nil {
 		w.ck.ctx.Fatal("start server: %v", err)
+	}
+	if err := wire.LimitAddressSpace(s.Pid(), 6<<30); err != nil {
+		w.ck.ctx.Count("address_space_limit_failed", 1)
 	}
 	w.s = s
 	w.ctl = nil
@@ -473,6 +472,15 @@ func (w *worker) runInstance(in *instance, cells []cell) {
 		ctx.Count("instances_skipped_quarantined", 1)
 		return
 	}
+	inner := in.args
+	if strings.EqualFold(inner[0], "TIMEOUT") && len(inner) > 2 {
+		inner = inner[2:]
+	}
+	if wire.JSETBalloon(inner) {
+		// the known containment finding of C16 (KNOWN_FINDINGS wedge:JSET): not a reply-format question
+		ctx.Count("instances_skipped_jset_balloon", 1)
+		return
+	}
 	global := in.tm.Flags&wire.FGlobal != 0
 	readonly := in.tm.Flags&wire.FRead != 0 && !global && !strings.HasPrefix(in.shape, "mut:")
 	var got []obs
@@ -521,6 +529,16 @@ func (w *worker) runInstance(in *instance, cells []cell) {
 				// the command did not answer on its own connection (a live mode without an
 				// acknowledgement on this transport) but the server is fine
 				ctx.Count("unanswered_server_responsive:"+cl.String(), 1)
+				continue
+			}
+			// confirm on a fresh process: a request that never returns does so again
+			w.restart()
+			if !w.load(in.state) {
+				return
+			}
+			if o2 := w.ask(cl, in.args, 2*replyWait); o2.status != "timeout" || w.responsive() {
+				ctx.Count("noreply_not_reproduced", 1)
+				w.dirty = true
 				continue
 			}
 			rp := replayBase()
@@ -632,7 +650,9 @@ func (w *worker) runInstance(in *instance, cells []cell) {
 	}
 	// 3. RESP mode vs JSON mode
 	if refR != nil && refJ != nil {
-		ctx.Count("mode_pairs_compared", 1)
+		if ctx.Count("mode_pairs_compared", 1); in.shape == "valid" && in.state == "hooks" && (in.tm.ID == "SCAN.wherein" || in.tm.ID == "GET.withfields" || in.tm.ID == "HOOKS") {
+			ctx.Sample(map[string]any{"command": in.args, "state": in.state, "resp_mode": clip(refR.resp.String()), "json_mode": clip(wire.MaskString(string(refJ.raw)))})
+		}
 		ok, comp, why := crossCompare(in.args, refR.resp, refJ.json)
 		if !ok {
 			rp := replayBase()
